@@ -3,6 +3,7 @@ import re
 from sa.rules import *
 from rules.netcode_common import *
 import rules.shared as shared
+from rules.oblcommon import obl_rule
 
 KEYCLASS = {"server_to_client_key": "s2c", "send_key": "s2c", "client_to_server_key": "c2s", "receive_key": "c2s", "challenge_key": "challenge", "connect_key": "token", "private_key": "token"}
 
@@ -145,6 +146,9 @@ def rules(t):
             if not re.search(re.escape(fld) + r" AddWithOverflow 1\)\.0$", fmt(t.stored(s_))): r.bad(f"{s_.fn.path}|{fld}|not-increment", s_, f"{adt.split('::')[-1]}.{fld} is assigned {fmt(t.stored(s_))[-50:]}: the counter is the AEAD nonce, resetting or jumping it reuses nonces under the same key")
     out.append(r)
     out.append(shared.aead_open_rule(t, "C17.e"))
+    r, d_ = obl_rule("C17.f", "OBL: truncated or malformed sealed data yields an error, never a panic: every input-dependent partial operation in Packet::decode / crypto / token open is discharged or vetted", "netcode", floor=3,
+                     select=lambda s_: any(x in s_["fn"] for x in ("packet::Packet", "crypto::", "PrivateConnectToken::decode", "ChallengeToken::decode", "packet::read_sequence", "packet::decode_prefix")))
+    out.append(r)
     return out
 
 def is_protocol(o):
